@@ -54,12 +54,12 @@ theorem C11_format_only_enabled (fs gs : List Field) (h : fs.filter enabled = gs
 theorem C11_nothing_for_unset (rec : Nat → Prog Out) (armed : Bool) (vals : List (String × Nat))
     (f : Field) (hu : vals.lookup f.name = none) (hi : f.init = false) (s : St) :
     (f.repr = .on → (evalFrag rec armed vals (toFrag f)).run s = (s, .ok "NOTHING")) ∧
-    (∀ t rc fl, f.repr = .call t rc fl →
-      evalFrag rec armed vals (toFrag f) = callRepr armed t rc fl (.done (.ok "NOTHING"))) := by
+    (∀ t rc fl c, f.repr = .call t rc fl c →
+      evalFrag rec armed vals (toFrag f) = callRepr armed t rc fl (tolerate c (.done (.ok "NOTHING")))) := by
   constructor
   · intro hon
     simp [evalFrag, access, toFrag, hu, hi, hon]
-  · intro t rc fl hc
+  · intro t rc fl c hc
     simp [evalFrag, access, toFrag, hu, hi, hc]
 
 /-- an unset `init=True` field is read as `self.name`: AttributeError, whatever its `repr=` -/
@@ -175,6 +175,18 @@ theorem C11_no_residue_content (h : Heap) (armed : Bool) (fuel id : Nat) (s : St
 
 theorem C11_no_residue_str (h : Heap) (armed : Bool) (fuel id : Nat) (s : St) :
     Restored s ((strNode h armed fuel id).run s).1 := clean_strNode h armed fuel id s
+
+/-- **C11_caught_fault_no_residue**: a tolerant callable (`try: repr(v) except BaseException: …`)
+    never hands on an exception from rendering its value, and whatever was raised below, the
+    bookkeeping is again that of the field's entry — so instances that are still being rendered keep
+    their marks and a later back-reference is still `...` (`C11_format_general` then applies to the
+    remaining fields unchanged). -/
+theorem C11_caught_fault_no_residue (h : Heap) (armed : Bool) (fuel i : Nat) (s : St) :
+    Restored s ((tolerate true (reprNode h armed fuel i)).run s).1 ∧
+    ∀ k, ((tolerate true (reprNode h armed fuel i)).run s).2 ≠ .exc k := by
+  refine ⟨clean_tolerate true (clean_reprNode h armed fuel i) s, fun k => ?_⟩
+  simp only [tolerate, if_true, run_bind, run_done]
+  cases ((reprNode h armed fuel i).run s).2 <;> simp [swallow]
 
 /-- **C11_repr_again_complete**: after any history of renderings in this thread — some of which may
     have raised — the next rendering is the complete one: what a thread that never rendered
@@ -361,6 +373,12 @@ example :
     (model exCase).again = .ok "OVR<Outer.A(p=[OVR<...>, ns.B(x=OVR<...>)], q=Rq<ns.B(x=OVR<...>)>)>" ∧
     (model exCase).str = (model exCase).again ∧
     (model exCase).threads = [⟨(model exCase).again, []⟩, ⟨(model exCase).again, []⟩] := by
+  decide
+
+/-- a fault below swallowed by a tolerant callable, then a back-reference through a list: still `...` -/
+example :
+    wf exSwallow = true ∧ (model exSwallow).first = .ok "Node(a=Ra<!>, b=[...])" ∧
+    (model exSwallow).again = .ok "Node(a=Ra<Child(p=Rp<7>)>, b=[...])" ∧ (model exSwallow).res1 = [] := by
   decide
 
 /-- unset fields: `NOTHING` for `init=False`, AttributeError for `init=True` — and no residue -/
